@@ -193,6 +193,22 @@ def slotsOf (m : Mem α) (h : Hdr) : M (List (CStruct α)) :=
 def namesOf (m : Mem α) (cs : List (CStruct α)) : M (List String) :=
   cs.mapM (fun c => m.strs.get c.name)
 
+/-- `namesOf` for the COMPILED driver only: the string store is turned into an array once, so that the names of an `n`-element vector cost
+`O(store + n)` instead of `O(store · n)` list steps (bulk histories grow arrays beyond 1000 crystals).  Proved equal to `namesOf` below and
+substituted by the compiler (`csimp`); every theorem is about `namesOf`. -/
+def namesOfFast (m : Mem α) (cs : List (CStruct α)) : M (List String) :=
+  let arr := m.strs.cells.toArray
+  cs.mapM (fun c => match (arr[c.name]?).join with
+    | some v => .ok v
+    | none => .error .useAfterFree)
+
+@[csimp] theorem namesOf_eq_namesOfFast : @namesOf = @namesOfFast := by
+  funext α m cs
+  simp only [namesOf, namesOfFast, Store.get, Store.get?, List.getElem?_toArray]
+  congr 1
+  funext c
+  cases m.strs.cells[c.name]?.join <;> rfl
+
 /-- `v[i] = c` for `i ≤` initialised length (appending initialises the next slot) -/
 def wrSlot (m : Mem α) (b : Nat) (i : Nat) (c : CStruct α) : M (Mem α) := do
   let bf ← m.bufs.get b
